@@ -218,7 +218,7 @@ theorem delete_canonical (cls : Cls) (kvs : List (Str × Val)) (p : Pos) (c t1 :
   have hlen := mergedToks_length_le p
   have htok : tokenize (slash ++ renderPos p) = mergedToks p := tokenize_render p hp
   unfold delete deleteTokens
-  simp only [htok]
+  simp only [stripQ_slash, htok]
   cases r with
   | false => exact deleteLoop_spelled fuel _ _ p c t1 hs (mergedToks_ne_nil p hne) hdel (by omega)
   | true => exact deleteLoop_rec_spelled fuel _ _ p c t1 hs (mergedToks_ne_nil p hne) hdel (by omega)
@@ -270,7 +270,7 @@ theorem runOp_ok (cls : Cls) (kvs : List (Str × Val)) (op : Op) (t' : Val) (fue
       simp only [hd, Option.map_some, Option.some.injEq] at ha
       have h1 := delete_canonical cls kvs p c t1 r fuel hp hne hget hd hf
       have h2 := getItem_canonical cls kvs p c fuel hp hne hget hf
-      simp only [runOp, opPath, pop, h2, h1, obsOp, ha, hget]
+      simp only [runOp, opPath, pop, stripQ_slash, h2, h1, obsOp, ha, hget]
 
 /-! ### histories -/
 
